@@ -470,7 +470,7 @@ Section LocalAlias.
     (forall x, ~ hint_match hints (q_name q) (q_type q) x) -> zone_phase zs q sub = ZContinue [].
   Proof.
     intros Hn Hq Hno. unfold zone_phase.
-    destruct (Hz (q_name q) (q_type q) Hn Hq) as (hz & zr & -> & -> & [[-> _]|(rrs & -> & Hin)]); [reflexivity|].
+    destruct (proj2 Hz (q_name q) (q_type q) Hn Hq) as (hz & zr & -> & -> & [[-> _]|(rrs & -> & Hin)]); [reflexivity|].
     assert (rrs = []) as ->.
     { destruct rrs as [|x l]; [reflexivity|]. exfalso. apply (Hno x), Hin. left. reflexivity. }
     cbn [is_nil negb]. rewrite andb_false_r. reflexivity.
@@ -650,7 +650,9 @@ Section AliasResolve.
   Proof.
     intros Ep Eh Eq. unfold candidate_step. rewrite Ep. unfold rbind at 1. rewrite Eh.
     unfold rbind at 1. rewrite Eq.
-    unfold resolve_with_nameserver_response, resolve_combined_recursive, rbind, insert_all, ret. cbn [fst snd].
+    unfold resolve_with_nameserver_response.
+    rewrite (cut_no_auth zs q (NRCname rrs cname) (proj1 Hz)).
+    unfold lift_res, resolve_with_response_match, resolve_combined_recursive, rbind, insert_all, ret. cbn [fst snd].
     destruct (rec stack (mkq cname (q_type q) (q_class q)) (cache_insert_all (fst st2) rrs, snd st2)) as [[[r|e]|w] st3]; reflexivity.
   Qed.
 
@@ -839,7 +841,7 @@ Section AliasResolve.
           subst post. rewrite app_nil_r in Hsplit. subst pre.
           assert (Enil : is_nil (finals f) = false) by (destruct (finals f); [congruence|reflexivity]).
           rewrite Enil in Eq.
-          rewrite (cstep_answer cache cache_get cache_insert_all sort_names zs o OnlyV4 port _ _ _ _ _ _ _ _ _ _ _ _ _ _ _ _ _ Ep Eh Eq).
+          rewrite (cstep_answer cache cache_get cache_insert_all sort_names zs o OnlyV4 port _ _ _ _ _ _ _ _ _ _ _ _ _ _ _ _ _ Ep Eh Eq) by (intros; apply owned_elsewhere_no_auth, (proj1 Hz)).
           rewrite merge_nil_l. cbn [fst snd].
           rewrite (answer_soa_none u (Q f) zkf PAf Hfne).
           exists (cr :: cs), (finals f). eexists. eexists. split; [reflexivity|].
